@@ -2,6 +2,7 @@
 # tools/benign_check.sh <patch.diff>... — apply each behaviour-preserving refactoring to /repo, run ALL checks, undo.
 # Every FAIL / ERROR / VIOLATION printed here is a false alarm of the checker (or the refactoring is not benign).
 cd "$(dirname "$0")/.." || exit 2
+./check --smoke >/dev/null || exit 2
 rc=0
 for p in "$@"; do
   [ -z "$(git -C /repo status --porcelain --untracked-files=no)" ] || { echo "/repo is dirty"; exit 2; }
